@@ -46,17 +46,25 @@ long long c_coord2cell(long long nrows, long long ncols,
     long long nval, double * xycoords, long long * idxcell)
 {
     long long ierr, i, nx, ny;
+    double fx, fy;
     ierr = 0;
 
     for(i=0; i<nval; i++)
     {
-        nx = (long long)floor((xycoords[2*i]-xll)/csz);
-        ny = nrows-1-(long long)floor((xycoords[2*i+1]-yll)/csz);
+        fx = floor((xycoords[2*i]-xll)/csz);
+        fy = floor((xycoords[2*i+1]-yll)/csz);
 
-        if(nx<0 || nx>=ncols || ny<0 || ny>=nrows)
+        /* Points outside the grid (including nan and infinite
+         * coordinates, which cannot be cast to integer) */
+        if(!(fx>=0 && fx<(double)ncols && fy>=0 && fy<(double)nrows))
+        {
             idxcell[i] = -1;
-        else
-            idxcell[i] = ny*ncols+nx;
+            continue;
+        }
+
+        nx = (long long)fx;
+        ny = nrows-1-(long long)fy;
+        idxcell[i] = ny*ncols+nx;
     }
 
     return ierr;
